@@ -112,6 +112,23 @@ def info_valid(ctx, rule="INFO-VALID"):
                         (fa.get("discr(*p2)") == ("==", 2) and fa.get("discr(*p1.coltype)") != ("==", 2) and len(fa) <= 2):
                     falses += 1
     ctx.check(falses >= 2, rule, "type mismatch is invalid", "%d constant-false arms" % falses, "integers in string columns / strings in integer columns are not rejected outright", f.loc(), fn=f.name, key=rule + "|mismatch")
+    # no shortcut to `true`: a value is accepted only at the end of its arm (after range, width, category, enumeration and length were all consulted);
+    # the one constant `true` is the `max_len == 0` short-circuit of the final length test
+    for g in prog.unit(f):
+        if g is not f and g.locals[0] != "bool":
+            continue
+        Sg = S if g is f else Sym(prog, g)
+        for bl in g.blocks:
+            if bl["cleanup"]:
+                continue
+            for s in bl["stmts"]:
+                o = s["rhs"].get("ops", [{}])[0] if s["rhs"]["rv"] == "use" else {}
+                if g is f and s["lhs"]["l"] == 0 and not s["lhs"]["p"] and o.get("k") == "const" and o.get("int") == 1:
+                    fs = Sg.bool_facts_at(bl["id"])
+                    last = fs[-1] if fs else ("", None, 0)
+                    okc = (re.search(r"coltype@Str\.0 Eq c:0\)$", last[0]) and last[1] is True) or (re.search(r"coltype@Str\.0 Ne c:0\)$", last[0]) and last[1] is False)
+                    ctx.check(bool(okc), rule, "no early acceptance", "constant true only for max_len == 0", "is_valid_value returns `true` early under %s: the remaining constraints "
+                              "(category, enumeration, length, range) are skipped for such values" % ((last[0][:80], last[1]),), f.loc(s["sp"]), fn=f.name, key=rule + "|early-true")
     # every constraint field of Column is read
     reads = set()
     for bl in f.blocks:
@@ -176,6 +193,28 @@ def cat_arms(ctx, rule="CAT-ARMS"):
             w = [tt.get("written") or "" for (b, n, args, tt) in cs if n.endswith("<impl str>::parse")]
             ctx.check(any(("parse::<%s>" % PARSE_TY[name]) in x for x in w), rule, "%s parses %s" % (name, PARSE_TY[name]), str(w), "Category::%s parses %s" % (name, w), f.loc(), fn=f.name,
                       key="%s|parse|%s" % (rule, name))
+    # Identifier: first character ASCII letter or '_', every other ASCII letter/digit, '_' or '.'
+    from ..lib import closure_sites as _cs
+    tg = arms.get("Identifier")
+    if tg is not None:
+        blks = {b for b in dom if tg in dom[b]}
+        cls = [c for b, c in _cs(prog, f) if b in blks]
+        names = sorted({cname(prog, t).rsplit("::", 1)[-1] for c in cls for b, t in c.calls() if "<impl char>::" in cname(prog, t)})
+        consts = set()
+        for c in cls:
+            Sc = Sym(prog, c)
+            for bl in c.blocks:
+                for st in bl["stmts"]:
+                    r = st["rhs"]
+                    if r["rv"] == "bin" and r["op"] in ("Eq", "Ne"):
+                        consts |= {Sc.val(o) for o in r["ops"] if o.get("k") == "const"}
+        ctx.check(names == ["is_ascii_alphabetic", "is_ascii_alphanumeric"] and {"c:95", "c:46"} <= consts, rule, "Identifier character classes", "%s, literals %s" % (names, sorted(consts)),
+                  "Category::Identifier tests characters with %s and the literals %s; an identifier is an ASCII letter or '_' followed by ASCII letters, digits, '_' and '.': the "
+                  "Unicode predicates admit characters Windows Installer rejects" % (names, sorted(consts)), f.loc(), fn=f.name, key="%s|identifier-classes" % rule)
+    unicode_preds = sorted({cname(prog, t).rsplit("::", 1)[-1] for c in prog.unit(f) for b, t in c.calls()
+                            if re.search(r"<impl char>::(is_alphanumeric|is_alphabetic|is_numeric|is_lowercase|is_uppercase|is_whitespace|is_control)$", cname(prog, t))})
+    ctx.check(not unicode_preds, rule, "category grammars are ASCII", "", "Category::validate uses the Unicode character predicates %s; the category grammars are defined over ASCII" % unicode_preds,
+              f.loc(), fn=f.name, key="%s|ascii-only" % rule)
     # constants in comparisons of the arms
     want_consts = {"Guid": {"c:38"}, "Version": {"c:4"}, "Cabinet": {"c:8", "c:3", "c:2"}}
     for name, consts in want_consts.items():
